@@ -190,7 +190,13 @@ def _type_of_kind(d, kind, depth):
             elif cfg['defaults'] and r < 45:
                 p = 'def'
             if p == 'def':
-                ct = draw_type(D(d.draw, dict(cfg, any=False)), 0, root=False, allow_any=False)
+                # mostly scalar defaults; sometimes a constructed one (SEQUENCE OF, record, CHOICE of scalars)
+                ddepth = 1 if depth > 1 and d.pct(cfg.get('constructed_default_pct', 20)) else 0
+                # (no REAL or time type anywhere in a default: the library recognises defaults through float() / string equality)
+                dkinds = [k for k in (cfg['kinds'] or SIMPLE_KINDS) if k not in ('REAL', 'GeneralizedTime', 'UTCTime')] or ['INTEGER']
+                ct = draw_type(D(d.draw, dict(cfg, any=False, kinds=dkinds if ddepth else cfg['kinds'],
+                                              constructed_pct=100 if ddepth else cfg['constructed_pct'])), ddepth,
+                               root=False, allow_any=False)
                 if ct['k'] in ('GeneralizedTime', 'UTCTime', 'REAL'):
                     # REAL: the library compares a DEFAULT component with its default through float()
                     ct = ir.mk('INTEGER', tags=ct.get('tags', []))
